@@ -28,7 +28,7 @@ ASSUMPTIONS = ['source architectures are produced with the step-by-step API (C02
 LEANCHECK_MODULES = ['Adsg.Model.Sup', 'Adsg.Props.C20']
 
 
-def gen_sup(rng, src_spec, mappable=None):
+def gen_sup(rng, src_spec, mappable=None, src_nodes=None):
     """Supplementary graph spec + mappings. `mappable`: source choices that still exist in the initialised source
     graph (choices resolved automatically at initialisation cannot be mapped: add_mapping rejects them)."""
     n = [1]
@@ -55,7 +55,10 @@ def gen_sup(rng, src_spec, mappable=None):
             table = [[j, rng.randrange(k)] for j in range(len(src_spec['sel'][sc]['opts']))] + [[None, rng.randrange(k)]]
             maps.append([ci, {'kind': 'opt', 'src_choice': sc, 'table': table}])
         else:
-            nodes = rng.sample(range(src_spec['n']), min(rng.randint(1, 3), src_spec['n']))
+            # mostly nodes of the initialised source graph; sometimes (malformed stream) any declared node, which
+            # add_mapping must reject when the node was removed at initialisation
+            pool = list(range(src_spec['n'])) if (src_nodes is None or rng.random() < .15) else list(src_nodes)
+            nodes = rng.sample(pool, min(rng.randint(1, 3), len(pool)))
             maps.append([ci, {'kind': 'exist', 'entries': [[v, rng.randrange(k)] for v in nodes], 'default': rng.randrange(k)}])
     rng.shuffle(maps)
     return sup, maps
@@ -136,14 +139,15 @@ def check_pair(ctx, rep, src_spec, sup, maps):
         init_ok_impl = False
         init_exc = repr(e)[:200]
     sources = [{'nodes': nd, 'row': [v for v in row]} for row, (nd, _) in archs.items()]
-    m = drv.ask('sup_resolve', sup=sup, maps=maps, sources=sources)
+    src_nodes = b.node_ids(b.dsg)
+    m = drv.ask('sup_resolve', sup=sup, maps=maps, sources=sources, src_nodes=src_nodes)
     if m['init_ok'] != init_ok_impl:
         rep.disagree('initialisation-outcome', inp, {'impl_ok': init_ok_impl, 'model_ok': m['init_ok'],
                                                      'exc': None if init_ok_impl else init_exc}, cls)
         return
     if not init_ok_impl:
         rep.case(inp, nontrivial=True)
-        rep.count('init:rejected')
+        rep.count('init:rejected', 'init:rejected:%s' % ('node-not-in-source' if not m.get('maps_wf', True) else 'mapping'))
         return
     sidx = {nd: i for i, nd in enumerate(nodes)}
     for (row, (nd, inst)), mr in zip(archs.items(), m['results']):
@@ -177,7 +181,7 @@ def check_pair(ctx, rep, src_spec, sup, maps):
     # malformed variants
     if len(maps) >= 1:
         for variant, mm in (('dropped', maps[:-1]), ('duplicated', maps + [maps[0]])):
-            mv = drv.ask('sup_resolve', sup=sup, maps=mm, sources=sources[:1])
+            mv = drv.ask('sup_resolve', sup=sup, maps=mm, sources=sources[:1], src_nodes=src_nodes)
             try:
                 build_sup(sup, mm, b)
                 impl_ok = True
@@ -210,9 +214,10 @@ def run(ctx, rep):
         try:
             sb = gen.build(src)
             mappable = [ci for ci, c in enumerate(sb.cn) if c in sb.dsg.graph.nodes]
+            src_nodes = sb.node_ids(sb.dsg)
         except Exception:
-            mappable = []
-        sup, maps = gen_sup(ctx.rng, src, mappable)
+            mappable, src_nodes = [], None
+        sup, maps = gen_sup(ctx.rng, src, mappable, src_nodes)
         if not ctx.mine(i):
             continue
         try:
